@@ -452,6 +452,59 @@ pub fn run(ctx: &mut Ctx) {
             }
         }
     }
+    // every history of three edits (didOpen or didChange x each text) with a token request after every edit, under
+    // four version policies: each answer is the answer of a fresh server for the text the document has then
+    {
+        let policies: [(&str, [i64; 3]); 4] = [("increasing", [1, 2, 3]), ("decreasing", [9, 5, 1]), ("constant", [1, 1, 1]), ("change-then-reopen-at-1", [1, 7, 1])];
+        let fresh: Vec<Result<Value, String>> = texts.iter().map(|t| tokens_for(t)).collect();
+        let n = texts.len();
+        let evs: Vec<(bool, usize)> = (0..n).flat_map(|t| [(true, t), (false, t)]).collect();
+        let mut jobs = vec![];
+        for a in 0..evs.len() {
+            for b in 0..evs.len() {
+                for c in 0..evs.len() {
+                    for (pi, _) in policies.iter().enumerate() {
+                        jobs.push(([a, b, c], pi));
+                    }
+                }
+            }
+        }
+        let res: Vec<Option<(usize, String)>> = jobs
+            .par_iter()
+            .map(|(h, pi)| {
+                let mut s = MemSrv::new(None);
+                let mut bad = None;
+                for (k, ei) in h.iter().enumerate() {
+                    let (open, t) = evs[*ei];
+                    let v = policies[*pi].1[k];
+                    if open {
+                        s.step(&did_open(URI, v, texts[t]));
+                    } else {
+                        s.step(&did_change(URI, v, &[texts[t]]));
+                    }
+                    let got = request_tokens(&mut s, URI, 50 + k as i64);
+                    if got != fresh[t] && bad.is_none() {
+                        bad = Some((k, format!("after step {} the tokens differ from a fresh server's tokens for text{}", k + 1, t)));
+                    }
+                }
+                let _ = Box::new(s).finish();
+                bad
+            })
+            .collect();
+        for ((h, pi), r) in jobs.iter().zip(res.iter()) {
+            hist_cases += 1;
+            ctx.transitions += 6;
+            ctx.distinct(&format!("hist3|{:?}|{}", h, pi));
+            if let Some((k, w)) = r {
+                let names: Vec<String> = h.iter().map(|e| format!("{}(text{})", if evs[*e].0 { "didOpen" } else { "didChange" }, evs[*e].1)).collect();
+                ctx.fail(
+                    &format!("tokens-depend-on-history/three-edits/{}/versions-{}", if evs[h[*k]].0 { "didOpen" } else { "didChange" }, policies[*pi].0),
+                    &format!("{:?} with versions {:?}: {}", names, policies[*pi].1, w),
+                    json!({"mode":"history3","steps": h.iter().enumerate().map(|(k, e)| json!({"open": evs[*e].0, "text": texts[evs[*e].1], "version": policies[*pi].1[k]})).collect::<Vec<_>>()}),
+                );
+            }
+        }
+    }
     // special documents: no text at all, no highlighted lexeme, `//` line comments. They are judged against the
     // lexer itself (default options): a null result exactly when the lexer reports a diagnostic; otherwise every
     // decoded range is a token of the lexer's list, and every comment and identifier token is among the ranges.
@@ -709,6 +762,21 @@ pub fn replay(case: &Value) -> Result<String, String> {
             } else {
                 Err("tokens after the history differ from a fresh server's".into())
             }
+        }
+        Some("history3") => {
+            let mut s = MemSrv::new(None);
+            for (k, st) in case["steps"].as_array().ok_or("steps")?.iter().enumerate() {
+                let (t, v) = (st["text"].as_str().ok_or("text")?, st["version"].as_i64().unwrap_or(1));
+                if st["open"] == json!(true) {
+                    s.step(&did_open(URI, v, t));
+                } else {
+                    s.step(&did_change(URI, v, &[t]));
+                }
+                if request_tokens(&mut s, URI, 50 + k as i64) != tokens_for(t) {
+                    return Err(format!("after step {} the tokens differ from a fresh server's", k + 1));
+                }
+            }
+            Ok("after every edit the tokens are those of the current text".into())
         }
         _ => Err("unknown replay mode".into()),
     }
